@@ -27,6 +27,7 @@ func init() {
 	register(&Prop{ID: "C18", Run: runC18, Replay: map[string]func(*mc.Ctx, json.RawMessage){
 		"tx":     replayer(c18Eval),
 		"retain": replayer(c18EvalRetain),
+		"seq":    replayer(c18EvalSeq),
 	}})
 }
 
@@ -715,5 +716,6 @@ func runC18(c *mc.Ctx) {
 		})
 	}
 	runC18Retain(c)
+	runC18Seq(c)
 
 }
